@@ -433,10 +433,13 @@ struct Obs {
     nom: Option<bool>,
     sel: Option<SocketAddr>,
     cands: BTreeSet<SocketAddr>,
+    /// the agent's current ICE role
+    controlled: bool,
 }
 
 fn observe(a: &IceTransport) -> Obs {
     Obs {
+        controlled: matches!(a.role(), IceRole::Controlled),
         state: a.state(),
         nom: *a.subscribe_nomination_complete().borrow(),
         sel: a.get_selected_pair().map(|p| p.remote.address),
@@ -498,6 +501,9 @@ fn forbidden_moves(n: &Names, before: &Obs, after: &Obs) -> Vec<String> {
     }
     if connectedish(after.state) && !connectedish(before.state) && before.state != IceTransportState::Disconnected {
         v.push(format!("connected (was {:?})", before.state));
+    }
+    if after.controlled != before.controlled {
+        v.push(format!("role-changed to {}", if after.controlled { "controlled" } else { "controlling" }));
     }
     v
 }
